@@ -75,7 +75,7 @@ HIST_CFG = [
 ]
 CHARGE_LISTS = [[1], [2], [3], [4], [1, 2], [1, 3], [2, 4], [3, 4], [1, 2, 3, 4]]
 ISO_LISTS = [[0], [1], [3], [0, 1], [0, 2], [1, 3], [0, 1, 2, 3]]
-SHAPE_AXES = ['nterm', 'cterm', 'r0', 'rlast', 'static', 'isotope']
+SHAPE_AXES = ['nterm', 'cterm', 'r0', 'rlast', 'static', 'isotope', 'charge', 'avg']
 
 
 def shape_values(axis, level):
@@ -88,6 +88,10 @@ def shape_values(axis, level):
                 [{'mods': [['10', 1]], 'targets': ['N-Term']}], [{'mods': [['10', 1]], 'targets': ['C-Term']}]]
     if axis == 'isotope':
         return [['13C'], ['15N'], ['13C', '15N']] if level <= 1 else [['13C']]
+    if axis == 'charge':   # a charge written in the string must not leak into the ions (fragment charges are explicit)
+        return [[2, None, None], [3, None, None]] if level <= 1 else [[2, None, None]]   # adduct lists: outside C04's quantifier
+    if axis == 'avg':
+        return [True]
     raise KeyError(axis)
 
 
@@ -122,9 +126,15 @@ def gen(shard, tier):
         axes = [a for a in SHAPE_AXES if not (a == 'rlast' and n < 2)]
         for k in (1, 2):
             for sub in itertools.combinations(axes, k):
+                if sub == ('avg',):
+                    continue
                 for vals in itertools.product(*[shape_values(a, k) for a in sub]):
-                    yield {'seq': seq, 'slots': dict(zip(sub, vals)), 'ions': ['a', 'b', 'c', 'x', 'y', 'z', 'by', 'ay', 'i'],
-                           'opts': {'charges': [1, 2], 'loss': 7 if k == 2 else 3, 'max_losses': 2}, 'proj': k == 1}, k, True
+                    slots = dict(zip(sub, vals))
+                    opts = {'charges': [1, 2], 'loss': 7 if k == 2 else 3, 'max_losses': 2}
+                    if slots.pop('avg', None):
+                        opts['avg'] = True
+                    yield {'seq': seq, 'slots': slots, 'ions': ['a', 'b', 'c', 'x', 'y', 'z', 'by', 'ay', 'i'],
+                           'opts': opts, 'proj': k == 1}, k, True
     elif kind == 'history':
         i = shard['first']
         m = len(HIST_CFG)
@@ -301,6 +311,9 @@ def check(case, ctx):
                     Pe['cterm'] = E['cterm']
                 if P.get('isotope'):
                     Pe['isotope'] = P['isotope']
+                for g in ('charge', 'adducts'):   # a charge written on the parent is carried by the slices
+                    if P.get(g) is not None:
+                        Pe[g] = P[g]
                 # rules that target a terminus cannot be expanded on a piece that lacks it: only residue rules may
                 # still be carried as rules
                 obs, err = pmodel.observed_explicit(fa, [r for r in (P.get('static') or [])
